@@ -170,6 +170,13 @@ func runC03(c *Ctx) {
 		withAnon(f, func(g *ssa.Function) { c.errOverwrittenRule("W7", g) })
 	}
 
+	// ---- W8 -----------------------------------------------------------------
+	// W1 bounds the write of an entry by the size its header declares, handed to safeio.CopyNWithContext. That helper
+	// writes at most the number of bytes it is given — for every value of that number, a negative one included (a zip64
+	// header may declare 2^63 or more, which reads as a negative int64): no path of it turns into an unbounded copy.
+	c.rule("W8", "safeio.CopyNWithContext copies through io.CopyN with the count it was given on every path: no unbounded copy (io.Copy, CopyDataWithContext) is reachable in it, whatever the count", 1)
+	c.copyNBounded("W8")
+
 	// ---- W1 -----------------------------------------------------------------
 	c.c03Guarded(uzf, "W1", "GetMaxFileSize", false, func(in ssa.Instruction) bool {
 		cl, ok := in.(*ssa.Call)
@@ -1123,4 +1130,100 @@ func (c *Ctx) c03Counted(unzip, uzf *ssa.Function) {
 		c.check(hit == nil, "W6", fname(unzip)+"/counted/"+st.what, c.ipos(st.in), "every iteration that creates this kind of entry counts it (or adds the nested count)",
 			"there is a way round the entry loop that creates this entry without the file counter having been incremented in that iteration: such entries are not bounded by GetMaxFileCount() (and are missing from the list returned)")
 	}
+}
+
+// copyNBounded: safeio.CopyNWithContext copies through io.CopyN with the count it was given on every path (C03/W8, C09/A20).
+func (c *Ctx) copyNBounded(rule string) {
+	cn := c.fn("safeio", "CopyNWithContext")
+	if cn == nil {
+		return
+	}
+	c.FuncsSeen[fname(cn)] = true
+	pi := paramIndexByName(cn, "n")
+	// the count: the parameter itself, or the parameter merged with constants (`if n < 0 { n = 0 }`)
+	isCount := func(v ssa.Value) bool {
+		if pi < 0 {
+			return false
+		}
+		fromParam := false
+		var visit func(l ssa.Value, depth int) bool
+		visit = func(l ssa.Value, depth int) bool {
+			l = resolveValue(l)
+			if l == ssa.Value(cn.Params[pi]) {
+				fromParam = true
+				return true
+			}
+			if _, isConst := l.(*ssa.Const); isConst {
+				return true
+			}
+			// a variable captured by the copy function and assigned more than once (`if n < 0 { n = 0 }`): every value stored
+			if u, ok := l.(*ssa.UnOp); ok && u.Op == token.MUL && depth < 4 {
+				if a, ok := resolveFreeVar(u.X).(*ssa.Alloc); ok {
+					for _, st := range storesToDeep(a) {
+						for _, l2 := range sources(st, deriveOpts{}) {
+							if !visit(l2, depth+1) {
+								return false
+							}
+						}
+					}
+					return true
+				}
+			}
+			return false
+		}
+		for _, l := range sources(v, deriveOpts{}) {
+			if !visit(l, 0) {
+				return false
+			}
+		}
+		return fromParam
+	}
+	// a source that is the caller's reader limited to the count
+	limited := false
+	bounded, unbounded := 0, ""
+	withAnon(cn, func(g *ssa.Function) {
+		allInstrs(g, func(in ssa.Instruction) {
+			cl, ok := in.(*ssa.Call)
+			if !ok {
+				return
+			}
+			if calleeFull(&cl.Call) == "io.LimitReader" && isCount(cl.Call.Args[1]) {
+				limited = true
+			}
+		})
+	})
+	withAnon(cn, func(g *ssa.Function) {
+		allInstrs(g, func(in ssa.Instruction) {
+			cl, ok := in.(*ssa.Call)
+			if !ok {
+				return
+			}
+			// a function value handed on (io.Copy passed as the copy function) counts as a call of it
+			for _, a := range cl.Call.Args {
+				if fn, isFn := a.(*ssa.Function); isFn && (fn.String() == "io.Copy") {
+					if limited {
+						bounded++
+					} else {
+						unbounded = "io.Copy (handed on at " + c.ipos(cl) + ") on a source that is not limited to the count"
+					}
+				}
+			}
+			switch n := calleeFull(&cl.Call); {
+			case n == "io.CopyN":
+				if isCount(cl.Call.Args[2]) {
+					bounded++
+				} else {
+					unbounded = "io.CopyN with another count at " + c.ipos(cl)
+				}
+			case n == "io.Copy", n == "io.CopyBuffer", n == "io.ReadAll", strings.HasSuffix(n, "safeio.CopyDataWithContext"), strings.HasSuffix(n, "safeio.ReadAll"):
+				if limited && (n == "io.Copy" || n == "io.CopyBuffer") {
+					bounded++
+				} else {
+					unbounded = short(n) + " at " + c.ipos(cl)
+				}
+			}
+		})
+	})
+	c.check(bounded > 0 && unbounded == "", rule, fname(cn)+"/bounded-for-every-count", c.pos(cn.Pos()), "every copy of CopyNWithContext is io.CopyN with the count given (or io.Copy from a reader limited to it)",
+		"CopyNWithContext can copy through "+unbounded+": for some count (a negative one: what a declared size of 2^63 or more becomes) the whole stream is written — an entry whose header lies about its size lands on disk without any bound, per-file and total limits notwithstanding")
 }
